@@ -35,6 +35,7 @@ type c16Case struct {
 	Streams     []c15Stream
 	Layers      []c16Layer
 	Base        string // HTTP carriers: base path on both sides ("" = "/")
+	ClientBidi  bool   // the client opens streams with a {client,server}-streaming descriptor whatever the method's flags (as generic proxies do)
 	Shared      bool   // the same decorated description is registered with a second carrier that has its own transport interceptors
 	TUnary2     string
 	TStream2    string
@@ -57,14 +58,37 @@ func (l *c16Log) add(format string, a ...interface{}) {
 	l.mu.Unlock()
 }
 
+type c16CtxKey struct{}
+
+// c16Marks lists the interceptors (ids) whose derived context is visible from ctx.
+func c16Marks(ctx context.Context) string {
+	m, _ := ctx.Value(c16CtxKey{}).([]string)
+	return strings.Join(m, "+")
+}
+
+func c16Mark(ctx context.Context, id string) context.Context {
+	m, _ := ctx.Value(c16CtxKey{}).([]string)
+	return context.WithValue(ctx, c16CtxKey{}, append(append([]string{}, m...), id))
+}
+
+type c16CtxStream struct {
+	grpc.ServerStream
+	ctx context.Context
+}
+
+func (s *c16CtxStream) Context() context.Context { return s.ctx }
+
 func c16UnaryInt(id string, beh string, lg *c16Log, wantMethod string) grpc.UnaryServerInterceptor {
 	if beh == "" {
 		return nil
 	}
 	n := int32(len(id))
 	return func(ctx context.Context, req interface{}, info *grpc.UnaryServerInfo, handler grpc.UnaryHandler) (interface{}, error) {
-		lg.add("u:%s:%s", id, info.FullMethod)
+		lg.add("u:%s:%s[%s]", id, info.FullMethod, c16Marks(ctx))
 		switch beh {
+		case "ctx-val":
+			// e.g. an auth interceptor: everything downstream must see the derived context
+			ctx = c16Mark(ctx, id)
 		case "sc-err":
 			return nil, status.Error(codes.PermissionDenied, "denied by "+id)
 		case "sc-resp":
@@ -93,8 +117,10 @@ func c16StreamInt(id string, beh string, lg *c16Log) grpc.StreamServerIntercepto
 		return nil
 	}
 	return func(srv interface{}, ss grpc.ServerStream, info *grpc.StreamServerInfo, handler grpc.StreamHandler) error {
-		lg.add("s:%s:%s:%v:%v", id, info.FullMethod, info.IsClientStream, info.IsServerStream)
+		lg.add("s:%s:%s:%v:%v[%s]", id, info.FullMethod, info.IsClientStream, info.IsServerStream, c16Marks(ss.Context()))
 		switch beh {
+		case "ctx-val":
+			ss = &c16CtxStream{ServerStream: ss, ctx: c16Mark(ss.Context(), id)}
 		case "sc-err":
 			return status.Error(codes.PermissionDenied, "denied by "+id)
 		case "sc-ok":
@@ -122,7 +148,7 @@ func (c *c16Case) desc(lg *c16Log) *grpc.ServiceDesc {
 				return nil, err
 			}
 			h := func(ctx context.Context, req interface{}) (interface{}, error) {
-				lg.add("handler:%s", full)
+				lg.add("handler:%s[%s]", full, c16Marks(ctx))
 				if c.HandlerFail {
 					return nil, status.Error(codes.DataLoss, "handler failed")
 				}
@@ -137,7 +163,7 @@ func (c *c16Case) desc(lg *c16Log) *grpc.ServiceDesc {
 	for _, s := range c.Streams {
 		full := "/" + c16Svc + "/" + s.Name
 		d.Streams = append(d.Streams, grpc.StreamDesc{StreamName: s.Name, ClientStreams: s.CS, ServerStreams: s.SS, Handler: func(srv interface{}, stream grpc.ServerStream) error {
-			lg.add("handler:%s", full)
+			lg.add("handler:%s[%s]", full, c16Marks(stream.Context()))
 			for stream.RecvMsg(new(pb.Message)) == nil {
 			}
 			if c.HandlerFail {
@@ -220,10 +246,11 @@ func (c *c16Case) model() (log []string, count, code int32, errCode codes.Code) 
 	} else {
 		full = fmt.Sprintf("/%s/U%d", c16Svc, c.Index)
 	}
-	var run func(k int, cnt int32) (int32, int32, codes.Code)
-	run = func(k int, cnt int32) (int32, int32, codes.Code) {
+	var run func(k int, cnt int32, marks []string) (int32, int32, codes.Code)
+	run = func(k int, cnt int32, marks []string) (int32, int32, codes.Code) {
+		ms := strings.Join(marks, "+")
 		if k == len(chain) {
-			log = append(log, "handler:"+full)
+			log = append(log, "handler:"+full+"["+ms+"]")
 			if c.HandlerFail {
 				return 0, 0, codes.DataLoss
 			}
@@ -231,32 +258,36 @@ func (c *c16Case) model() (log []string, count, code int32, errCode codes.Code) 
 		}
 		e := chain[k]
 		n := int32(len(e.id))
+		next := marks
+		if e.beh == "ctx-val" {
+			next = append(append([]string{}, marks...), e.id)
+		}
 		if c.CallStream {
 			s := c.Streams[c.Index]
-			log = append(log, fmt.Sprintf("s:%s:%s:%v:%v", e.id, full, s.CS, s.SS))
+			log = append(log, fmt.Sprintf("s:%s:%s:%v:%v[%s]", e.id, full, s.CS, s.SS, ms))
 			switch e.beh {
 			case "sc-err":
 				return 0, 0, codes.PermissionDenied
 			case "sc-ok":
 				return 0, 0, codes.OK
 			}
-			a, b, ec := run(k+1, cnt)
+			a, b, ec := run(k+1, cnt, next)
 			log = append(log, "s-exit:"+e.id)
 			if e.beh == "rw-err" {
 				return 0, 0, codes.Aborted
 			}
 			return a, b, ec
 		}
-		log = append(log, fmt.Sprintf("u:%s:%s", e.id, full))
+		log = append(log, fmt.Sprintf("u:%s:%s[%s]", e.id, full, ms))
 		switch e.beh {
 		case "sc-err":
 			return 0, 0, codes.PermissionDenied
 		case "sc-resp":
 			return 0, 1000 + n, codes.OK
 		case "rw-req":
-			return run(k+1, cnt+100*n)
+			return run(k+1, cnt+100*n, next)
 		}
-		a, b, ec := run(k+1, cnt)
+		a, b, ec := run(k+1, cnt, next)
 		log = append(log, "u-exit:"+e.id)
 		switch e.beh {
 		case "rw-resp":
@@ -268,7 +299,7 @@ func (c *c16Case) model() (log []string, count, code int32, errCode codes.Code) 
 		}
 		return a, b, ec
 	}
-	count, code, errCode = run(0, 5)
+	count, code, errCode = run(0, 5, nil)
 	return
 }
 
@@ -415,7 +446,11 @@ func propC16(c c16Case) *Outcome {
 			}
 			if c.CallStream {
 				s := c.Streams[c.Index]
-				cs, err := conn.NewStream(ctx, &grpc.StreamDesc{StreamName: s.Name, ClientStreams: s.CS, ServerStreams: s.SS}, "/"+c16Svc+"/"+s.Name)
+				cdesc := &grpc.StreamDesc{StreamName: s.Name, ClientStreams: s.CS, ServerStreams: s.SS}
+				if c.ClientBidi {
+					cdesc = &grpc.StreamDesc{StreamName: s.Name, ClientStreams: true, ServerStreams: true}
+				}
+				cs, err := conn.NewStream(ctx, cdesc, "/"+c16Svc+"/"+s.Name)
 				if err != nil {
 					gotErr = err
 					return
@@ -505,8 +540,8 @@ func c16DirectStream(d *grpc.ServiceDesc, idx int, srv interface{}, ts grpc.Stre
 	return sd.Handler(srv, fs)
 }
 
-var c16UBeh = []string{"", "pass", "pass", "sc-err", "sc-resp", "rw-req", "rw-resp", "rw-err"}
-var c16SBeh = []string{"", "pass", "pass", "sc-err", "sc-ok", "rw-err"}
+var c16UBeh = []string{"", "pass", "pass", "ctx-val", "sc-err", "sc-resp", "rw-req", "rw-resp", "rw-err"}
+var c16SBeh = []string{"", "pass", "pass", "ctx-val", "sc-err", "sc-ok", "rw-err"}
 
 func genC16(t *rapid.T) c16Case {
 	c := c16Case{Carrier: rapid.SampledFrom([]string{"direct", cInproc, cHTTP, cHTTPMux}).Draw(t, "carrier")}
@@ -528,6 +563,7 @@ func genC16(t *rapid.T) c16Case {
 		c.Index = rapid.IntRange(0, c.NUnary-1).Draw(t, "idx")
 	}
 	c.HandlerFail = rapid.IntRange(0, 4).Draw(t, "hfail") == 0
+	c.ClientBidi = rapid.IntRange(0, 2).Draw(t, "clientbidi") == 0
 	if c.Carrier == cHTTP || c.Carrier == cHTTPMux {
 		c.Base = rapid.SampledFrom([]string{"", "", "/api/", "/v1/rpc"}).Draw(t, "base")
 	}
